@@ -109,7 +109,9 @@ func c13Exact(cx *explore.Ctx, q run.Query, got []lang.SemanticToken, body *hcls
 		v.Detail = detail + "\nfile:\n" + cx.Case.Text
 		cx.C.Add(v)
 	}
-	key := func(t lang.SemanticTokenType, r hcl.Range) string { return fmt.Sprintf("%s@%d-%d", t, r.Start.Byte, r.End.Byte) }
+	key := func(t lang.SemanticTokenType, r hcl.Range) string {
+		return fmt.Sprintf("%s@%d-%d", t, r.Start.Byte, r.End.Byte)
+	}
 	want := map[string]expTok{}
 	for _, e := range exp {
 		want[key(e.typ, e.rng)] = e
